@@ -124,42 +124,95 @@ def sweptErrs (p : Platform) : List Err :=
 def sweptEnvs (pid : Nat) : List Env :=
   PidState.all.flatMap fun s => [true, false].map fun l => ⟨pid, s, l⟩
 
+/-- the two Windows repairs (fixes/C20-win-ppid-wrap, fixes/C20-win-memory-maps-wrap) as a
+    configuration of the model: `fixed = true` is the repaired code (`ppid` carries
+    `wrap_exceptions`, the per-mapping loop of `memory_maps` sits inside the converting `try`),
+    `fixed = false` the code before the repairs. Everything else is the generated configuration. -/
+def variantCfg (fixed : Bool) : Cfg := { cfg with winMapsLoopGuarded := fixed }
+
+def variantMethod (fixed : Bool) (p : Platform) (m : Method) : Method :=
+  if p == .windows && m.name == "ppid" then
+    { m with decorators := if fixed then ["wrap_exceptions"] else [] }
+  else m
+
+def faultOKc (c : Cfg) (p : Platform) (m : Method) (call : String) (e : Err) (env : Env) : Bool :=
+  Spec.allowed p m.name (Spec.recoverable p m.name call) e env (methodFault c p m call e env false).1
+
 def faultOK (p : Platform) (m : Method) (call : String) (e : Err) (env : Env) : Bool :=
-  Spec.allowed p m.name (Spec.recoverable p m.name call) e env (methodFault cfg p m call e env false).1
+  faultOKc cfg p m call e env
 
-/-- the two call sites recorded as known findings (findings/C20.json) -/
+/-- the two call sites recorded as known findings (findings/C20.json) — each one only as long as
+    the translator sees the unrepaired shape in the current source -/
 def knownFinding (p : Platform) (meth call : String) : Bool :=
-  p == .windows && ((meth == "ppid" && call == "ppid_map") || (meth == "memory_maps" && call == "QueryDosDevice"))
+  p == .windows &&
+    ((meth == "ppid" && call == "ppid_map" && !nameWrapped .windows "ppid") ||
+     (meth == "memory_maps" && call == "QueryDosDevice" && !cfg.winMapsLoopGuarded))
 
-def traceRowOK (strict : Bool) (p : Platform) (row : String × Nat × List String) : Bool :=
+/-- one row of the generated traces under configuration `c`, methods seen through `mt` -/
+def traceRowOKc (c : Cfg) (mt : Platform → Method → Method) (excl : Platform → String → String → Bool)
+    (p : Platform) (row : String × Nat × List String) : Bool :=
   match methodOf? p row.1 with
   | none => false
   | some m =>
     row.2.2.all fun call =>
-      (!strict && knownFinding p row.1 call) ||
-      (sweptErrs p).all fun e => (sweptEnvs row.2.1).all fun env => faultOK p m call e env
+      excl p row.1 call ||
+      (sweptErrs p).all fun e => (sweptEnvs row.2.1).all fun env => faultOKc c p (mt p m) call e env
 
-/-- full statement: for every platform identity, every method, every native call the method
-    makes (as traced under emulation), every swept error and every pid state, the outcome is
-    one the specification allows -/
+def traceRowOK (strict : Bool) (p : Platform) (row : String × Nat × List String) : Bool :=
+  traceRowOKc cfg (fun _ m => m) (fun p m c => !strict && knownFinding p m c) p row
+
+/-- full statement about the code as the translator sees it now: for every platform identity,
+    every method, every native call the method makes (as traced under emulation), every swept
+    error and every pid state, the outcome is one the specification allows -/
 def C20_method_faults_within_spec_Full : Prop :=
   ∀ p ∈ Platform.all, ∀ row ∈ tracesOf p, traceRowOK true p row = true
 
-/-- **C20_method_faults_within_spec_partial.** The full statement outside the two known call
-    sites (Windows `ppid()` → `ppid_map`, Windows `memory_maps()` → `QueryDosDevice`). -/
-theorem C20_method_faults_within_spec_partial :
+/-- **C20_method_faults_within_spec.** Full strength, for the repaired configuration (Windows
+    `ppid()` decorated, `memory_maps()` converting inside its loop): every platform identity ×
+    method × native call of its trace × swept error × pid state × pid-0 listing gives an
+    outcome the specification allows. No call site is excluded. -/
+theorem C20_method_faults_within_spec :
+    ∀ p ∈ Platform.all, ∀ row ∈ tracesOf p,
+      traceRowOKc (variantCfg true) (variantMethod true) (fun _ _ _ => false) p row = true := by
+  decide +kernel
+
+/-- **C20_method_faults_within_spec_current.** The same for the code exactly as the translator
+    reads it from the current tree. A call site is excluded only while its repair is absent from
+    the source (`knownFinding` consults the generated decorator list of `ppid` and the generated
+    flag `winMapsLoopGuarded`): on a tree with both repairs this *is* the full statement. -/
+theorem C20_method_faults_within_spec_current :
     ∀ p ∈ Platform.all, ∀ row ∈ tracesOf p, traceRowOK false p row = true := by
   decide +kernel
 
-/-- the full statement is false of the code: Windows `ppid()` lets a PermissionError raised by
-    `ppid_map()` through unchanged (witness replayed by the harness, finding C20-win-ppid-bare) -/
-theorem C20_method_faults_counterexample_ppid :
-    faultOK .windows ⟨"ppid", []⟩ "ppid_map" ⟨.EPERM, none⟩ ⟨42, .alive, true⟩ = false := by decide
+/-- once both repairs are in the source, nothing is excluded: the current-tree theorem is the full one -/
+theorem C20_method_faults_full_when_repaired
+    (h1 : nameWrapped .windows "ppid" = true) (h2 : cfg.winMapsLoopGuarded = true) :
+    C20_method_faults_within_spec_Full := by
+  intro p hp row hrow
+  have h := C20_method_faults_within_spec_current p hp row hrow
+  have hk : ∀ q m c, knownFinding q m c = false := by
+    intro q m c; simp [knownFinding, h1, h2]
+  simpa [traceRowOK, hk] using h
 
-/-- … and `memory_maps()` lets an error of `QueryDosDevice` (inside `convert_dos_path`) through
-    unchanged, because only the first native call sits in its `try` (finding C20-win-memory-maps-bare) -/
+/-- the unrepaired code violates the full statement: Windows `ppid()` without the decorator lets a
+    PermissionError raised by `ppid_map()` through unchanged (witness replayed by the harness on an
+    unrepaired tree, finding C20-win-ppid-bare) -/
+theorem C20_method_faults_counterexample_ppid :
+    faultOKc (variantCfg false) .windows ⟨"ppid", []⟩ "ppid_map" ⟨.EPERM, none⟩ ⟨42, .alive, true⟩ = false := by
+  decide
+
+/-- … and with the decorator the same fault gives AccessDenied(pid, name) -/
+example : (methodFault (variantCfg true) .windows ⟨"ppid", ["wrap_exceptions"]⟩ "ppid_map" ⟨.EPERM, none⟩
+    ⟨42, .alive, true⟩ false).1 = .ad 42 true := by decide
+
+/-- … and unrepaired `memory_maps()` lets an error of `QueryDosDevice` (inside `convert_dos_path`)
+    through unchanged, because only the first native call sits in its `try`
+    (finding C20-win-memory-maps-bare); repaired, the same fault becomes NoSuchProcess -/
 theorem C20_method_faults_counterexample_memory_maps :
-    faultOK .windows ⟨"memory_maps", []⟩ "QueryDosDevice" ⟨.ESRCH, none⟩ ⟨42, .alive, true⟩ = false := by
+    faultOKc (variantCfg false) .windows ⟨"memory_maps", []⟩ "QueryDosDevice" ⟨.ESRCH, none⟩ ⟨42, .alive, true⟩
+      = false ∧
+    (methodFault (variantCfg true) .windows ⟨"memory_maps", []⟩ "QueryDosDevice" ⟨.ESRCH, none⟩
+      ⟨42, .alive, true⟩ false).1 = .nsp 42 true := by
   decide
 
 /-- the pre-fix `_pssunos._proc_basic_info` raised `AccessDenied(self.pid)` without the cached
@@ -169,7 +222,10 @@ theorem C20_method_faults_counterexample_sunos_pid0 :
       (methodFault { cfg with sunosPid0Named := false } .sunos ⟨"uids", ["wrap_exceptions"]⟩ "proc_cred"
         ⟨.EPERM, none⟩ ⟨0, .gone, true⟩ false).1 = false := by decide
 
-theorem C20_method_faults_not_full : ¬ C20_method_faults_within_spec_Full := by
+/-- the full statement is false of the unrepaired configuration (whatever the current tree is) -/
+theorem C20_method_faults_not_full_unrepaired :
+    ¬ (∀ p ∈ Platform.all, ∀ row ∈ tracesOf p,
+        traceRowOKc (variantCfg false) (variantMethod false) (fun _ _ _ => false) p row = true) := by
   intro h
   have := h .windows (by decide) ("ppid", 42, ["ppid_map"]) (by decide)
   revert this
